@@ -18,11 +18,13 @@ from hv import Case
 
 SPEC = {
     "lean_modules": ["Honeycomb.Props.C16"],
-    "required_theorems": ["C16_orientation_rejection_iff"],
+    "required_theorems": ["C16_orientation_rejection_iff", "C16_orientation_accepts_iff_nodup", "C16_closed_loop_accepted",
+                          "C16_repeated_origin_rejected", "C16_repeated_endpoint_rejected", "C16_grid_margins", "C16_grid_tight"],
     "trusted_base": [
         "Lean 4.33 kernel; axioms propext, Classical.choice, Quot.sound only",
-        "hand-written model Honeycomb/Model/Grisubal.lean (detect_orientation_issue) tied to /repo by the hcmodel/hcimpl "
-        "correspondence on the `orient` command (exhaustive small segment lists + random lists)",
+        "hand-written model Honeycomb/Model/Grisubal.lean (detect_orientation_issue; sizing formulas of compute_overlapping_grid) "
+        "tied to /repo by the hcmodel/hcimpl correspondence on the `orient` command (exhaustive small segment lists + random "
+        "lists) and by comparing the model's `ogrid` answers with the bounding box of every unclipped map grisubal returns",
         "Rust harness /verif/harness/hcimpl/src/gris.rs (writes the geometry as a legacy ASCII VTK file, calls the public "
         "grisubal) and tools/grisgeo.py + tools/props/c16.py (the exact oracle: independent crossings, areas, sides, coverage)",
         "vtkio's legacy reader (the geometry reaches the kernel through a file)",
@@ -46,7 +48,8 @@ SPEC = {
         "and every retained point of interest is a vertex, faces tile the grid rectangle, exactly one side kept, kept area = "
         "region area, every segment covered by free boundary edges): validated by the exact oracle on the real "
         "implementation, not proved",
-        "compute_overlapping_grid (margins, termination of the shift loop), generate_intersection_data, "
+        "compute_overlapping_grid: detection of vertices on grid lines and termination of the shift loop (the sizing "
+        "formulas are proved for any shift < 1/2 cell: C16_grid_margins); generate_intersection_data, "
         "group_intersections_per_edge / compute_intersection_ids, generate_edge_data, insert_edges_in_map: not modelled "
         "(HashMap-ordered dart numbering, f64 epsilon bands); covered only by the end-to-end oracle",
         "clip_left / clip_right closure: not reachable through the public API on hand-made maps (Boundary is pub(crate)); "
@@ -186,6 +189,9 @@ def oracle(case, li):
     if res != "ok":
         return f"refused: valid geometry answered {res!r}"
     s = gg.parse_snap(li[2])
+    if clip == "none":
+        pts = [p for d, p in enumerate(s["a0"]) if p is not None and not s["u"][d]]
+        case.meta["bbox"] = (min(p[0] for p in pts), max(p[0] for p in pts), min(p[1] for p in pts), max(p[1] for p in pts))
     f = check_mesh(g, clip, s, li[1])
     if not f:
         return None
@@ -399,6 +405,48 @@ def orient_oracle(case, li):
     return "; ".join(fails[:3]) if fails else None
 
 
+# ---- sizing of the overlapping grid: model formula (`ogrid`) vs the map the implementation returns ----------
+
+def grid_tie(cases):
+    """for every unclipped run: the bounding box of the returned map must be the model's
+    [origin, origin + n_cells * cell] on both axes (exact for dyadic inputs, 1e-9 otherwise)"""
+    todo = [c for c in cases if c.meta.get("bbox") and c.meta["clip"] == "none"]
+    lines, keys = [], []
+    for c in todo:
+        g = c.meta["geo"]
+        xs = [p[0] for p in g.verts]
+        ys = [p[1] for p in g.verts]
+        lines.append(f"ogrid {gg.rs(g.cell[0])} {gg.rs(min(xs))} {gg.rs(max(xs))}")
+        lines.append(f"ogrid {gg.rs(g.cell[1])} {gg.rs(min(ys))} {gg.rs(max(ys))}")
+    rc, out = hv.run_bin(hv.HCMODEL, "\n".join(lines) + "\n")
+    out = [x for x in out if x]
+    stats = {"cases": len(todo), "lines": len(out), "disagreements": 0, "oracle_failures": 0, "impl_outcomes": {}, "ops": {"ogrid": len(lines)},
+             "distinct_nontrivial": len(set(out))}
+    violations = []
+    for k, c in enumerate(todo):
+        g = c.meta["geo"]
+        x0, x1, y0, y1 = c.meta["bbox"]
+        bad = None
+        for axis, (lo, hi, cl) in enumerate(((x0, x1, g.cell[0]), (y0, y1, g.cell[1]))):
+            ans = out[2 * k + axis].split() if 2 * k + axis < len(out) else ["<missing>"]
+            if ans[0] != "ok":
+                bad = f"model answered {ans}"
+                break
+            og, n = Fr(ans[1]), int(ans[2])
+            # inputs on a coarse dyadic lattice: every f64 operation of the sizing is exact
+            dyadic = all(p[0].denominator <= 4096 and p[1].denominator <= 4096 for p in g.verts)
+            tol = 0 if dyadic else gg.TOL
+            if abs(lo - og) > tol or abs(hi - (og + n * cl)) > tol * max(1, n):
+                bad = f"axis {axis}: model origin {og} cells {n} (end {og + n * cl}), implementation's map spans [{lo}, {hi}]"
+                break
+        if bad:
+            stats["disagreements"] += 1
+            violations.append({"kind": "correspondence", "what": f"overlapping grid of case {c.cid}: {bad}", "found_input": False,
+                               "sig": "ogrid", "replay": {"case": c.cid, "input_lines": c.lines,
+                                                          "theorem_or_correspondence": "gridOrigin/gridCells (Model/Grisubal.lean) vs bounding box of grisubal's map"}})
+    return {"stats": stats, "violations": violations[:5], "samples": []}
+
+
 # ---------------------------------------------------------------------------------------------
 # run
 # ---------------------------------------------------------------------------------------------
@@ -408,8 +456,9 @@ def run(tier, seed):
     mult = 1 if tier == "quick" else 8
     parts = []
     parts.append(("orient: detect_orientation_issue, model vs implementation", hv.campaign(orient_cases(rng, tier), orient_oracle)))
-    parts.append(("grisubal on polygons in general position (implementation, exact oracle)",
-                  gg.impl_campaign(geometry_cases(rng, 130 * mult), oracle)))
+    geo = geometry_cases(rng, 130 * mult)
+    parts.append(("grisubal on polygons in general position (implementation, exact oracle)", gg.impl_campaign(geo, oracle)))
+    parts.append(("overlapping grid: model sizing formula vs bounding box of the returned map", grid_tie(geo)))
     parts.append(("loops inside one grid cell", gg.impl_campaign(tiny_loop_cases(rng, 8 * mult), oracle)))
     parts.append(("directed: nested V dips through one cell side", gg.impl_campaign(chevron_cases(), oracle)))
     parts.append(("mis-oriented boundaries", gg.impl_campaign(misoriented_cases(rng, 40 * mult), oracle)))
